@@ -203,6 +203,12 @@ class C03(SingleRun):
             p["require_features"] = ["with_items", "fork"]
             p["faults"].update(pause=0.2, cancel=0.0, cancel_while_pausing=0.5, resume_early=0.0, rerun=0.0,
                                act_canceling=0.05, p_fail=0.05)
+        elif Keyed(seed).u("profile", "pause_cancel_items") < 0.3:
+            # a pause/cancel that starts from a task event (a sibling is canceled on its own or asks
+            # for input) while a with-items task is between items or was just resumed
+            p["require_features"] = ["with_items", "fork"]
+            p["faults"].update(pause=0.12, resume_early=0.5, cancel=0.0, rerun=0.0, act_cancel_solo=0.15, pending=0.15,
+                               poll_skip=0.3, p_fail=0.05, act_paused=0.0)
         return p
 
     def nontrivial(self, r):
@@ -298,6 +304,10 @@ class C10(SingleRun):
         if Keyed(seed).u("profile", "pause_cancel_items") < 0.12:
             p["require_features"] = ["with_items", "fork"]
             p["faults"].update(pause=0.2, cancel=0.0, cancel_while_pausing=0.5, resume_early=0.0, act_canceling=0.05)
+        elif Keyed(seed).u("profile", "pause_cancel_items") < 0.27:
+            p["require_features"] = ["with_items", "fork"]
+            p["faults"].update(pause=0.12, resume_early=0.5, cancel=0.0, act_cancel_solo=0.2, poll_skip=0.3, p_fail=0.05,
+                               act_paused=0.0)
         return p
 
     def nontrivial(self, r):
